@@ -440,7 +440,9 @@ func (ms *Modules) Process() []error {
 	ms.typeDict.mu.Lock()
 	ms.typeDict.gen++
 	ms.typeDict.mu.Unlock()
-	for _, mm := range []map[string]*Module{ms.Modules, ms.SubModules} {
+	// (A module without a revision that a revision of the same name has
+	// displaced is in neither table, but its typedefs are still resolved.)
+	for _, mm := range []map[string]*Module{ms.Modules, ms.SubModules, ms.unrevisioned} {
 		for _, m := range mm {
 			for _, i := range m.Include {
 				i.Module = nil
